@@ -74,10 +74,10 @@ type exitRec struct {
 
 // monitor collects hook events of the VM under test (one VM at a time per worker process).
 type monitor struct {
-	mu     sync.Mutex
-	exits  []exitRec
-	steps  int64
-	budget int64
+	mu      sync.Mutex
+	exits   []exitRec
+	steps   int64
+	budget  int64
 	catches int64
 }
 
